@@ -235,6 +235,7 @@ def run(ck):
     ck.run_rule("G16", "no blanket handler inside the package: failures are reported or travel to the last-resort handler, never swallowed", 8, _esc.rule_G16)
     from . import c05 as _c05
     ck.run_rule("C05.R2", "division by zero and negative shift counts are reported and still leave a number (the statement around them is assembled on)", 28, _c05.rule_R2)
+    ck.run_rule("C01.T5", "index operands with nested and stacked operators around the register part are rebuilt without dying ('mov @-a(r1), r0')", 10, c01.rule_T5)
     ck.run_rule("C03.R1u", "a name nobody defines: one error, then an integer value and no definition site (no None reaches arithmetic)", 1, c11.rule_undefined_value)
     ck.run_rule("C11.R5", "'.extern all' leaves a usable location (P7)", 4, c11.rule_R5)
     ck.run_rule("C03.R6", "operators applied to not-yet-known operands defer and later evaluate without raising", 9, c03.rule_R6)
